@@ -30,7 +30,7 @@ func ms(t time.Time) time.Time { return t.Truncate(time.Millisecond) }
 
 func TestIngestionContract(t *testing.T) {
 	run := vf.Cur()
-	sub := run.Sub("ingestion-contract", "per case a real app in virtual time (resolve_timeout 1m/5m, alert GC every 1m/7m/30m), 2-4 label sets, 10-40 steps: POST /api/v2/alerts batches mixing valid alerts (with/without startsAt/endsAt, overlapping, disjoint, out of order, end in the past, re-fire, empty-valued labels) with invalid ones (empty label set, empty label name, end before start), one batch listing an alert twice (firing, then with an end in the past), clock advances across ends and GC ticks, GET /api/v2/alerts probes; oracle = reference model of docs/alerts_api.md + the statement (response 200/400, valid siblings stored, defaulted times, earliest start on overlap, immediate resolution, visibility == end not passed, receivers == reference routing, never missing while firing across GC); where the statement leaves the merged end open both outcomes are admitted; non-trivial = >=1 merge of overlapping submissions and >=1 visible alert compared; distinct by (seed)", 100)
+	sub := run.Sub("ingestion-contract", "per case a real app in virtual time (resolve_timeout 1m/5m, alert GC every 1m/7m/30m), 2-4 label sets, 10-40 steps: POST /api/v2/alerts batches mixing valid alerts (with/without startsAt/endsAt, overlapping, disjoint, out of order, end in the past, re-fire, empty-valued labels, empty-valued annotations) with invalid ones (empty label set, empty label name, end before start), one batch listing an alert twice (firing, then with an end in the past), clock advances across ends and GC ticks, GET /api/v2/alerts probes; oracle = reference model of docs/alerts_api.md + the statement (response 200/400, valid siblings stored, defaulted times, earliest start on overlap, immediate resolution, visibility == end not passed, receivers == reference routing, never missing while firing across GC); where the statement leaves the merged end open both outcomes are admitted; non-trivial = >=1 merge of overlapping submissions and >=1 visible alert compared; distinct by (seed)", 100)
 	n := run.N(600, 60000)
 	vf.Parallel(t, n, 16, func(t *testing.T, i int) {
 		r := sub.Rand(i)
@@ -160,6 +160,9 @@ func TestIngestionContract(t *testing.T) {
 						l := gen.Pick(r, lsets).Clone()
 						ver++
 						pa := sim.PostableAlert{Labels: l, Annotations: model.Labels{"v": fmt.Sprint(ver)}}
+						if r.Intn(4) == 0 {
+							pa.Annotations["note"] = "" // empty annotation values are legal (only empty LABEL values are dropped)
+						}
 						var sp, ep *time.Time
 						switch r.Intn(5) {
 						case 0:
